@@ -54,6 +54,21 @@ func httpFile(kind string, e int) (string, []byte) {
 			fmt.Fprintf(&b, "%d tag%d\n%s\n", len(blk), i, blk)
 		}
 		return "raw", []byte(b.String())
+	case "raw-bigbody", "uripost-bigbody":
+		// every second entry carries a body of 6000 bytes (larger than the 4 KiB read buffers)
+		for i := 0; i < e; i++ {
+			body := ""
+			if i%2 == 0 {
+				body = strings.Repeat("0123456789", 600)
+			}
+			if kind == "uripost-bigbody" {
+				fmt.Fprintf(&b, "%d /p%d?vid=%d tag%d\n%s\n", len(body), i, i, i, body)
+				continue
+			}
+			blk := fmt.Sprintf("POST /p%d?vid=%d HTTP/1.1\r\nHost: h.example.org\r\nContent-Length: %d\r\n\r\n%s", i, i, len(body), body)
+			fmt.Fprintf(&b, "%d tag%d\n%s\n", len(blk), i, blk)
+		}
+		return strings.TrimSuffix(kind, "-bigbody"), []byte(b.String())
 	case "jsonline-lines":
 		for i := 0; i < e; i++ {
 			fmt.Fprintf(&b, `{"method":"GET","uri":"/p%d?vid=%d","host":"h.example.org","tag":"tag%d"}`+"\n", i, i, i)
@@ -106,7 +121,7 @@ func buildProvider(c Cell) (core.Provider, string, error) {
 	var conf map[string]any
 	var path string
 	switch c.Kind {
-	case "uri", "uripost", "raw", "jsonline-lines", "jsonline-array":
+	case "uri", "uripost", "raw", "jsonline-lines", "jsonline-array", "raw-bigbody", "uripost-bigbody":
 		typ, data := httpFile(c.Kind, c.Entries)
 		path = vkit.WriteMem(data)
 		conf = map[string]any{"type": typ, "file": path}
@@ -421,12 +436,12 @@ func runEngine(res *vkit.Result, c Cell, p core.Provider, exp int, watchdog time
 	return ""
 }
 
-var kinds = []string{"uri", "uripost", "raw", "jsonline-lines", "jsonline-array", "grpc/json", "http/scenario", "grpc/scenario", "json", "json-inline", "json-padded", "json-queue2"}
+var kinds = []string{"uri", "uripost", "raw", "jsonline-lines", "jsonline-array", "grpc/json", "http/scenario", "grpc/scenario", "json", "json-inline", "json-padded", "json-queue2", "raw-bigbody", "uripost-bigbody"}
 
 func cells(kind string) []Cell {
 	var out []Cell
 	preloads := []bool{false}
-	if kind == "uri" || kind == "uripost" || kind == "raw" || strings.HasPrefix(kind, "jsonline") {
+	if kind == "uri" || kind == "uripost" || kind == "raw" || strings.HasPrefix(kind, "jsonline") || strings.HasSuffix(kind, "-bigbody") {
 		preloads = []bool{false, true}
 	}
 	consumers := []int{1, 3}
